@@ -26,8 +26,25 @@ def jobs_semver(tier):
     return jobs
 
 
+def jobs_pypi(tier):
+    base = dict(panic_is_violation=True, unwind_is_violation=True, unwind=60, timeout_s=600 if tier == "quick" else 3000,
+                max_witnesses=3, witness_every=200)
+    nd = 5 if tier == "quick" else 7
+    nn = 4 if tier == "quick" else 6
+    jobs = [dict(base, harness="VerifC04ParseDependency", params={"n": n}) for n in range(0, nd + 1)]
+    jobs += [dict(base, harness="VerifC04Names", params={"n": n}) for n in range(0, nn + 1)]
+    return jobs
+
+
+def jobs_rpypi(tier):
+    base = dict(panic_is_violation=True, unwind_is_violation=True, unwind=60, timeout_s=600 if tier == "quick" else 3000,
+                max_witnesses=3, witness_every=200)
+    nm = 4 if tier == "quick" else 6
+    return [dict(base, harness="VerifC04Marker", params={"n": n}) for n in range(0, nm + 1)]
+
+
 def run(tier):
-    groups = [Group("semver", jobs_semver(tier))]
-    return run_property("C04", tier, groups, required_covers=["accepted", "rejected"],
+    groups = [Group("semver", jobs_semver(tier)), Group("pypi", jobs_pypi(tier)), Group("rpypi", jobs_rpypi(tier))]
+    return run_property("C04", tier, groups, required_covers=["accepted", "rejected", "canon computed"],
                         assumptions=["inputs are byte strings of the stated lengths, all 256 byte values"],
                         bounds={"semver": "see jobs table: n = string length"})
